@@ -93,6 +93,19 @@ def gen_episode(rng, strat=None, weights=None, depth=None, long=False):
     return g.finish()
 
 
+def heavy_weight_episodes(rng):
+    """weights far above the usual handful (a 0.1 % canary, percentages, powers of two): every documented weight is
+    honoured exactly, whatever its size — one full period and a bit from a fresh pool"""
+    eps = []
+    for ws in ([1000, 1], [600, 300, 100], [257, 1], [256, 255, 1], [1024, 3], [1, 999]):
+        g = lbgen.Gen(rng, strategy="weighted_round_robin", passive=False, nback=len(ws), weights=list(ws))
+        g.advance(6 * SEC)
+        for _ in range(sum(ws) + rng.randint(1, 40)):
+            g.request(outcome="200")
+        eps.append(g.finish())
+    return eps
+
+
 def exhaustive_weight_episodes(rng, full):
     eps = []
     rng_w = range(0, 7)
@@ -231,7 +244,7 @@ def check(ctx):
     nep = 800 if ctx.thorough() else 150
     episodes = C.load_corpus(ID) + exhaustive_weight_episodes(ctx.rng, ctx.thorough()) + \
         [gen_episode(ctx.rng, long=ctx.thorough()) for _ in range(nep)] + conc_episodes(ctx.rng, ctx.thorough()) + \
-        seek_episodes(ctx.rng)[:30 if ctx.thorough() else 12]
+        seek_episodes(ctx.rng)[:30 if ctx.thorough() else 12] + heavy_weight_episodes(ctx.rng)
     bad = d.check(episodes, oracle=oracle, label="dist")
     nontriv = set()
     strat_count = {}
